@@ -172,6 +172,13 @@ def run_project(st, pat, label, old, new, fmt, lid, arrangement, files, entries,
     if set_version is not None:
         new_text = set_version
     tree, files = build_project(pat, old, fmt, files, entries, explicit_cfg)
+    # the property excludes surrounding text that itself matches a configured pattern: such projects are not generated
+    for f in files:
+        for line in f.lines:
+            for seg in line:
+                if seg[0] == "t" and seg[1] and any(fp.ref_search(seg[1], None) for fp in f.patterns):
+                    st.counters["projects_rejected_filler_matches_a_configured_pattern"] += 1
+                    return None, None, None
     world.clear_dir(".")
     world.write_tree(tree)
     o = world.cli("update", "--no-fetch", "--ignore-vcs-tag", "--set-version", new_text)
